@@ -7,3 +7,8 @@ import PMH.Props.C01
 #print axioms PMH.C01.race_winner
 #print axioms PMH.C02.run_spec
 #print axioms PMH.C02.run2_spec
+#print axioms PMH.C01.pmh3_position_holds_earliest
+#print axioms PMH.C01.pmh3_collision_iff_same_earliest
+#print axioms PMH.C01.pmh3_equal_weights_unbiased
+#print axioms PMH.C01.pmh3_equal_weights_single_set_law
+#print axioms PMH.C01.pmh2_equal_weights_unbiased
